@@ -1,8 +1,9 @@
 #!/bin/bash
-# run every claimed check once; print one summary line per check
+# run every claimed check once; print one summary line per check (works from any copy of the tree)
 tier=${1:-quick}
-cd /verif
-for p in $(/venv/bin/python -c "import sys; sys.path.insert(0,'/verif'); from dsim import props; print(' '.join(props.claimed()))"); do
+here="$(cd "$(dirname "$0")/.." && pwd)"
+cd "$here"
+for p in $(/venv/bin/python -c "import sys; sys.path.insert(0,'$here'); from dsim import props; print(' '.join(props.claimed()))"); do
   s=$(date +%s)
   out=$(./check $p $tier 2>&1); rc=$?
   e=$(( $(date +%s) - s ))
